@@ -113,6 +113,7 @@ EvalRequired ==        \* required.py:26-27
 FnGate ==
     /\ Running /\ IsFn(TopNode) /\ Top.i = 1 /\ ~Top.wait
     /\ IF ~EffSafe(TopNode) /\ ~Mut("NoFnGate") THEN Fail("UnsafeError")
+       ELSE IF TopNode.ref # <<>> THEN Fail("EvalError")          \* call.py / bind.py: import_name(_func) fails (marker NoImport)
        ELSE /\ stack' = SetTop([Top EXCEPT !.wait = TRUE, !.rs = reqsafe])   \* `with ctx.require_all_safe(...)`
             /\ reqsafe' = ~Mut("NoArgGate")
             /\ UNCHANGED <<work, cache, heap, calls, evlog, taint, status>>
@@ -206,16 +207,68 @@ XRefTaken ==
                /\ stack' = Return(st1, id, TopTainted)
     /\ UNCHANGED <<work, heap, calls, evlog, reqsafe>>
 
-\* ---- other dynamic leaves (!eval, f-strings, !import, !path): opaque here ------
+\* ---- !eval whose code is one bare name ------------------------------------------
+\* (by convention of the universes / the projection such a node carries ref = <<the top-level key of that name>>)
+\* eval.py: `_require_safe`, then the interpreter looks the name up in EvalBuiltins.__getitem__:
+\*   `if name in ecfg._cfgobj: with ctx.require_all_safe(node, path): return ecfg[name]`, and
+\* eval_context.py PartialChild.__getitem__: a key that is not yet in ecfg is evaluated now (every node on the way
+\* must be safe); a finished one is reused (unless tainted); and a key is present as an unfinished PLACEHOLDER as
+\* soon as something below it has been evaluated - made for `a: {b: 1, c: !eval a.b}`.  A placeholder that the code
+\* hands back as its value is evaluated properly (eval.py; mutation EvalLeaksPlaceholder: the code before that fix).
+IsEvalName(n) == n.k = "eval" /\ n.ref # <<>>
+IsBelow(q, tp) == Len(q) > Len(tp) /\ SubSeq(q, 1, Len(tp)) = tp
+HasPlaceholder(tp) == /\ ~Cached(tp)
+                      /\ \/ \E q \in DOMAIN cache : IsBelow(q, tp)
+                         \/ \E j \in 1..Len(stack) : IsBelow(stack[j].p, tp)
+VPlaceholder == [k |-> "placeholder", v |-> NoVal, ch |-> <<>>, by |-> <<>>]
+
+EvalNameLookup ==
+    /\ Running /\ IsEvalName(TopNode) /\ Top.ids = <<>> /\ ~Top.wait
+    /\ LET tp == TopNode.ref IN
+       IF ~EffSafe(TopNode) THEN Fail("UnsafeError")
+       ELSE IF ~HasPath(work, tp) THEN Fail("EvalError")                      \* NameError in the user code
+       ELSE IF Cached(tp)
+       THEN IF Tainted(tp) THEN Fail("UnsafeError")                          \* _reuse_evaluated under require_all_safe
+            ELSE /\ cache' = PutCache(Top.p, cache[tp])
+                 /\ taint' = IF TopTainted THEN taint \cup {Top.p} ELSE taint
+                 /\ LET st1 == Pop IN
+                    IF st1 = <<>> THEN stack' = st1 /\ status' = "done"
+                    ELSE status' = status /\ stack' = Return(st1, cache[tp], TopTainted)
+                 /\ UNCHANGED <<work, heap, calls, evlog, reqsafe>>
+       ELSE IF HasPlaceholder(tp) /\ Mut("EvalLeaksPlaceholder")
+       THEN Finish(VPlaceholder, <<>>) /\ UNCHANGED reqsafe
+       ELSE \* evaluate_node(<the node of that name>, [name]) under require_all_safe: by PartialChild.__getitem__ when the key
+            \* was not in ecfg at all, by the eval node itself (on its result) when a placeholder came back
+            /\ evlog' = Append(evlog, tp) /\ UNCHANGED taint
+            /\ LET rs == TRUE IN
+               IF rs /\ ~EffSafe(At(work, tp)) THEN /\ status' = "UnsafeError" /\ UNCHANGED <<work, stack, cache, heap, calls, reqsafe>>
+               ELSE IF OnStack(tp) THEN /\ status' = "EvalError" /\ UNCHANGED <<work, stack, cache, heap, calls, reqsafe>>   \* unbounded recursion
+               ELSE /\ stack' = Append(SetTop([Top EXCEPT !.wait = TRUE, !.rs = reqsafe]), Frame(tp, At(work, tp)))
+                    /\ reqsafe' = rs
+                    /\ UNCHANGED <<work, cache, heap, calls, status>>
+
+\* the value arrived: the node evaluates to that very object
+EvalNameTaken ==
+    /\ Running /\ IsEvalName(TopNode) /\ Top.ids # <<>>
+    /\ LET id == Top.ids[1] IN
+       /\ cache' = PutCache(Top.p, id)
+       /\ reqsafe' = Top.rs
+       /\ taint' = IF TopTainted THEN taint \cup {Top.p} ELSE taint
+       /\ LET st1 == Pop IN
+          IF st1 = <<>> THEN stack' = st1 /\ status' = "done"
+          ELSE status' = status /\ stack' = Return(st1, id, TopTainted)
+    /\ UNCHANGED <<work, heap, calls, evlog>>
+
+\* ---- other dynamic leaves (other !eval code, f-strings, !import, !path): opaque here ------
 \* they gate on their own safety and produce an object (C12 refines them)
 EvalOpaque ==
-    /\ Running /\ TopNode.k \in {"eval", "fstr", "import"}
+    /\ Running /\ TopNode.k \in {"eval", "fstr", "import"} /\ ~IsEvalName(TopNode)
     /\ IF ~EffSafe(TopNode) THEN Fail("UnsafeError")
        ELSE Finish(VObj(Top.p, <<>>), <<[p |-> Top.p, fn |-> IF TopNode.k = "import" THEN TopNode.v[2] ELSE TopNode.k, args |-> <<>>]>>)
             /\ UNCHANGED reqsafe
 
 EStep == \/ EvalScalar \/ EvalRequired \/ FnGate \/ EnterChild \/ FinishContainer
-         \/ XRefAlias \/ XRefMissing \/ XRefFollow \/ XRefEnter \/ XRefTaken \/ EvalOpaque
+         \/ XRefAlias \/ XRefMissing \/ XRefFollow \/ XRefEnter \/ XRefTaken \/ EvalNameLookup \/ EvalNameTaken \/ EvalOpaque
 
 ETerminal == status \in {"done", "EvalError", "UnsafeError"}
 
